@@ -224,6 +224,10 @@ package internal
 //@   requires typeChecked-predicate-has-function: len(call.Args) == 1
 //@   ghost cf compiledFunc
 //@   at call compileFunction 1 ghost cf = ret
+//@   ghost vari bool = false
+//@   at call Variadic 1 ghost vari = ret
+//@   at call errf 2 pre assert [C14] rejected-as-variadic-only-if-variadic: vari
+//@   ensures [C14] an-accepted-predicate-is-not-variadic: implies(result != nil, !vari)
 //@   ensures [C01,C11] predicate-function-is-a-new-object: implies(result != nil, result.Function != nil && result.Function != t.Function && forall(i, int, implies(0 <= i && i < len(f.Funcs), f.Funcs[i] != result.Function)))
 //@   ensures [C11,C14] an-accepted-predicate-returns-exactly-one-bool: implies(result != nil, $TLEN(pure("(*go/types.Signature).Results", result.Function.Sig)) == 1 && typeof($VTYPE(pure("(*go/types.Signature).Results", result.Function.Sig), 0)) == typeid("*go/types.Basic") && pure("(*go/types.Basic).Kind", dataof($VTYPE(pure("(*go/types.Signature).Results", result.Function.Sig), 0))) == types.Bool)
 //@   ensures [C11,C02] predicate-keeps-the-compiled-functions-signature-and-inputs: implies(result != nil, result.Function != nil && result.Function.Predicate == result && result.Task == t && result.Inputs == cf.Inputs && result.Function.Dependencies == cf.Inputs && result.Function.Sig == cf.Sig && result.Function.WantCtx == cf.WantCtx && result.Function.Node == cf.Node && result.SentinelOutput != nil)
